@@ -1,7 +1,7 @@
 """Property id -> check function."""
 import json
 
-from . import props_pool, props_router, props_plugins, props_relay, props_pause, props_shutdown, props_reload, props_prepared, props_params, props_auth, props_config, props_hostile
+from . import props_pool, props_router, props_plugins, props_relay, props_pause, props_shutdown, props_reload, props_prepared, props_params, props_auth, props_config, props_hostile, props_failover
 
 CHECKS = {
     'C01': props_pool.check,
@@ -21,6 +21,7 @@ CHECKS = {
     'C09': props_auth.check_c09,
     'C15': props_config.check_c15,
     'C11': props_hostile.check_c11,
+    'C07': props_failover.check_c07,
 }
 
 
